@@ -70,6 +70,12 @@ impl<'a> Gen<'a> {
             5 => self.out.push_str(" --[==[ ]] ]=] ]==] "),
             6 => self.out.push_str(" --[ not long\n"),
             7 => self.out.push_str("\n\n"),
+            8 => {
+                let c = long_bracket(self.rng);
+                self.out.push_str(" --");
+                self.out.push_str(&c);
+                self.out.push(' ');
+            }
             _ => self.out.push(' '),
         }
     }
@@ -194,19 +200,7 @@ impl<'a> Gen<'a> {
         s
     }
     fn long_string(&mut self) -> String {
-        let lvl = self.rng.below(4);
-        let eq = "=".repeat(lvl);
-        // bodies never contain the closing bracket of their own level and never end with ']'
-        let other = if lvl == 0 { "]=]" } else { "]]" };
-        let body = match self.rng.below(6) {
-            0 => String::new(),
-            1 => "\nline1\nline2".to_string(),
-            2 => format!("x{}y", other),
-            3 => "\\n \\q \"'".to_string(),
-            4 => "\r\n--[[ \u{e9}".to_string(),
-            _ => "[[ nested [=[ ".to_string(),
-        };
-        format!("[{}[{}]{}]", eq, body, eq)
+        long_bracket(self.rng)
     }
     fn expr(&mut self, d: usize, vararg: bool) {
         // binary / unary operators with the manual's precedence are exercised by NOT parenthesising
@@ -695,6 +689,37 @@ impl<'a> Gen<'a> {
     }
 }
 
+
+/// a long bracket `[=*[ body ]=*]` of level 0..3, valid by construction: the body is assembled from fragments that
+/// look like brackets of other levels (`]`, `]]`, `]=`, `]==`, `]=]`, `[=[`, newlines right after the opener, ...) and is
+/// kept only if the closing bracket of ITS level first occurs at the very end (manual 3.1: a long bracket ends at the
+/// first closing long bracket of the same level).  Bodies often END with such a fragment right before the closer.
+fn long_bracket(rng: &mut Rng) -> String {
+    const FRAGS: &[&str] = &["]", "]]", "]=", "]==", "]===", "]=]", "]==]", "[[", "[=[", "[==[", "=", "==", "a", "t[i]", "t[u[1]]", " x = ", "\n", "\r\n",
+        "\\n", "\"", "--", "--[[", "\u{e9}", "]]]", "]=]=", "=]"];
+    loop {
+        let lvl = rng.below(4);
+        let eq = "=".repeat(lvl);
+        let closer = format!("]{}]", eq);
+        let mut body = String::new();
+        if rng.chance(1, 5) {
+            body.push_str(*rng.pick(&["\n", "\r\n", "\r", "\n\n"]));
+        }
+        let n = rng.below(5);
+        for _ in 0..n {
+            body.push_str(*rng.pick(FRAGS));
+        }
+        if rng.chance(1, 2) {
+            // end with something that looks like (part of) a closer of another level
+            body.push_str(*rng.pick(&["]", "]=", "]==", "]===", "]]", "t[u[1]]", "]=]", "]==]"]));
+        }
+        let whole = format!("{}{}", body, closer);
+        if whole.find(&closer) == Some(body.len()) {
+            return format!("[{}[{}{}", eq, body, closer);
+        }
+    }
+}
+
 fn gen_program(rng: &mut Rng, lv: u32, depth: usize) -> String {
     let mut g = Gen::new(rng, lv);
     if g.rng.chance(1, 12) {
@@ -924,6 +949,53 @@ fn gen_literal(rng: &mut Rng, lv: u32) -> (String, bool) {
     }
 }
 
+/// long brackets for the lexical tie: valid ones, and broken ones (wrong closer level, missing closer, `[=` without `[`, ...)
+fn gen_long_literal(rng: &mut Rng) -> String {
+    let mut s = long_bracket(rng);
+    match rng.below(10) {
+        0 => {
+            s.pop();
+        }
+        1 => s.push(']'),
+        2 => s = s.replacen('[', "[=", 1),
+        3 => s = format!("[{}", "=".repeat(rng.below(3))),
+        4 => s = format!("[{}x", "=".repeat(rng.below(3))),
+        5 => s.insert(1, '='),
+        _ => {}
+    }
+    if rng.chance(1, 2) {
+        s = format!("--{}", s);
+    } else if rng.chance(1, 10) {
+        s = format!("-{}", s);
+    }
+    s.push_str(*rng.pick(&["", " ", "\n", "]", "]]", "=]", " x", "\nlocal y"]));
+    s
+}
+
+fn observe_long(text: &str, level: &str) -> Value {
+    let cfg = ParserConfig::with_level(level_of(level));
+    let mut lex_errs = Vec::new();
+    let tokens = LuaLexer::new(Reader::new(text), cfg.lexer_config(), Some(&mut lex_errs)).tokenize();
+    let (kind, len, err) = match tokens.first() {
+        Some(t) => {
+            let k = match t.kind {
+                LuaTokenKind::TkLongString => 0,
+                LuaTokenKind::TkLongComment => 1,
+                LuaTokenKind::TkLeftBracket => 2,
+                LuaTokenKind::TkShortComment => 3,
+                LuaTokenKind::TkMinus => 4,
+                _ => 5,
+            };
+            let end = t.range.end_offset();
+            let e = lex_errs.iter().any(|e| usize::from(e.range.start()) < end.max(1));
+            (k, end, e)
+        }
+        None => (5, 0, false),
+    };
+    let cps: Vec<u32> = text.chars().map(|c| c as u32).collect();
+    json!({"k": "long", "text": cps, "kind": kind, "len": len, "err": err})
+}
+
 fn observe_literal(ws: &mut Ws, lit: &str, rest: &str, is_string: bool, level: &str) -> Value {
     let text = format!("{}{}", lit, rest);
     let cfg = ParserConfig::with_level(level_of(level));
@@ -1053,6 +1125,15 @@ fn main() {
                         println!("{}", case_json("mut", level, &m, &om, false));
                     }
                 }
+            }
+            // the demonstration literals of the seeded long-bracket change first, then generated ones
+            for t in ["[=[a]]=]", "[==[t[i]]==]", "--[=[ x = t[u[1]]=]\n", "[[a]=]]", "[=[a]==]=]", "[[x]=]]]", "--[[ s = [=[x]=]]]\n", "[[\nline]]", "[=", "--[==x\ny", "[", "-[[x]]"] {
+                println!("{}", observe_long(t, "5.4"));
+            }
+            for i in 0..nlex {
+                let level = LEVELS[i % LEVELS.len()].0;
+                let t = gen_long_literal(&mut rng);
+                println!("{}", observe_long(&t, level));
             }
             for i in 0..nlex {
                 let level = LEVELS[i % LEVELS.len()].0;
